@@ -17,8 +17,8 @@ pub enum Out {
 /// ms since process start at which the running case started (0 = idle); read by the watchdog.
 pub static CASE_START_MS: AtomicU64 = AtomicU64::new(0);
 static T0: std::sync::OnceLock<std::time::Instant> = std::sync::OnceLock::new();
-/// process CPU time (ms) at which the running case started
-pub static CASE_START_CPU_MS: AtomicU64 = AtomicU64::new(0);
+/// sequence number of the running case (the watchdog samples the CPU clock itself, per case)
+pub static CASE_SEQ: AtomicU64 = AtomicU64::new(0);
 /// CPU time consumed by this process so far, in ms (user + system, all threads)
 pub fn cpu_ms() -> u64 {
     let mut ts = libc::timespec { tv_sec: 0, tv_nsec: 0 };
@@ -258,7 +258,7 @@ impl Ctx {
             }
         }
         self.progress.set(self.idx, ord, 1);
-        CASE_START_CPU_MS.store(cpu_ms(), Ordering::Relaxed);
+        CASE_SEQ.fetch_add(1, Ordering::Relaxed);
         CASE_START_MS.store(now_ms(), Ordering::Relaxed);
         let r = guard(f);
         CASE_START_MS.store(0, Ordering::Relaxed);
